@@ -67,6 +67,13 @@ def generate(check, tier, seed, families=("exh", "sweep", "sim"), sim_num=None, 
                 bs.sort(key=lambda b: -max(r["d"] for r in b["out"]))
                 for b in bs[:per]:
                     progs.append({"fam": "sweep", "out": b["out"], "needs08": b["needs08"]})
+    if "units" in families or "exh" in families:
+        # every sequence of up to three program units of every kind (headerless main program, block data, submodule ...)
+        beh = sorted(_run(check, "Grammar_units.cfg"), key=lambda b: json.dumps(b["out"], sort_keys=True))
+        if tier == "quick":
+            beh = beh[seed % 5::5]
+        for b in beh:
+            progs.append({"fam": "units", "out": b["out"], "needs08": b["needs08"]})
     if "sim" in families:
         n = sim_num or (40 if tier == "quick" else 1500)     # per simulation worker
         w = 8
